@@ -814,9 +814,28 @@ def _abstract_forecast(c, rank, n0=None, n1=None):
     return fc, data, sc, mc, mags, n0, n1
 
 
+def directed_gridded(test):
+    """concrete forecasts / catalogs for a public gridded test (conventions of rt/oracles_eval.gridded_test: test in L, CL, S, M, bS,
+    bCL, brier), seeded runs"""
+    def fam():
+        g = {'nx': 2, 'ny': 2, 'dh': 1.0, 'x0': 0.0, 'y0': 0.0, 'mags': [4.0, 5.0]}
+        ra = [[0.5, 0.25], [1.5, 0.125], [2.0, 0.75], [0.375, 3.0]]
+        out = []
+        for ev in ([[0, 0], [1, 1], [2, 0], [3, 1], [2, 1], [0, 0]], [[3, 1]], []):
+            for seed in (0, 7):
+                out.append(('gridded_test', dict(test=test, grid=g, rates=ra, events=ev, num_simulations=4, seed=seed)))
+        return out
+    return staticmethod(fam)
+
+
+_GRIDDED_NAME = {'likelihood_test': 'L', 'conditional_likelihood_test': 'CL', 'spatial_test': 'S', 'magnitude_test': 'M',
+                 'binary_spatial_test': 'bS', 'binary_conditional_likelihood_test': 'bCL', 'brier_score_test': 'brier'}
+
+
 def public_poisson_test(fname, resname, which, normalize):
     """which in {'data', 'spatial', 'magnitude'}: the arrays the test must hand to _poisson_likelihood_test"""
     class Pub:
+        directed = directed_gridded(_GRIDDED_NAME[fname])
         qualname = 'csep.core.poisson_evaluations.' + fname
         case = 'abstract forecast / catalog, injected random numbers'
         properties = ('C05', 'C06')
@@ -1372,6 +1391,7 @@ for _cls in _SEEDED:
 
 @contract
 class PublicLTest:
+    directed = directed_gridded('L')
     qualname = 'csep.core.poisson_evaluations.likelihood_test'
     case = 'abstract forecast / catalog, seeded'
     properties = ('C05', 'C06')
